@@ -66,7 +66,7 @@ PKL_VALUES = SRC_VALUES + [{'$t': [1, {'$t': [2, 3]}]},
 
 UNENCODABLE = {
     'json': [{'$s': [1, 2]}, {'$b': '6162'}, {'$o': 'unpicklable'}],
-    'sql': [[1, 2], {'$t': [1]}, {'$d': [['a', 1]]}],
+    'sql': [[1, 2], {'$t': [1]}, {'$d': [['a', 1]]}, 2 ** 64 + 1, -(25 ** 20)],      # ints beyond sqlite's 64 bits
     'src': [{'$o': 'unpicklable'}],
     'pkl': [{'$o': 'unpicklable'}],
 }
